@@ -316,11 +316,16 @@ def h01u(c, K=4):
             for k in range(K):
                 pending = any(o.status == OrderStatus.PENDING for o in market.blotter)
                 resting = [o for o in market.blotter if o.status == OrderStatus.EXECUTABLE and c.is_true(o.size_remaining > 0)]
-                acts = ["new-trade", "acknowledge"] + (["latest-trade"] if trades and not pending else []) + (["re-price-resting-order"] if resting and not pending else [])
+                acts = ["new-trade", "acknowledge", "read-exposure"] + (["latest-trade"] if trades and not pending else []) + (["re-price-resting-order"] if resting and not pending else [])
                 act = c.choose("step%d" % k, acts)
                 with c.guard("step%d" % k):
                     if act == "acknowledge":
                         ack()
+                        continue
+                    if act == "read-exposure":
+                        # the strategy looks at its own exposure (logging, sizing): reading never changes what later checks see
+                        market.blotter.selection_exposure(strategy, (cm.MID, 1, 0))
+                        market.blotter.market_exposure(strategy, market.market_book)
                         continue
                     if act == "re-price-resting-order":
                         # price replacement of a (partly matched) resting order down to the deep level: only the remainder is re-placed
